@@ -16,7 +16,7 @@ from ..core import EventLog, RunResult, SimAbort, HarnessError, h64
 from ..seams import ExecMonitor, Hygiene, StdCapture
 
 ENGINE = "iosim_netcdf"
-BUDGET = {"C18": {"quick": 2400, "thorough": 40000}}
+BUDGET = {"C18": {"quick": 8000, "thorough": 60000}}
 NETCDF_LIBS = ("mpilot.libraries.eems.basic", "mpilot.libraries.eems.netcdf", "mpilot.libraries.eems.fuzzy")
 DTYPES = ("Float", "Integer", "Positive Float", "Positive Integer", "Fuzzy")
 
